@@ -1,2 +1,170 @@
-From Coq Require Import List.
-From PV Require Import C01.Model C01.Gen.
+(* C01 - property theorems only.  `reg`, `order`, `holder`, `ops` are universally quantified:
+   every override table, every set of connected protocols, every takeover state, every history.
+   The statements about the code's own tables (Gen.rows, Gen.relayer_prio, Gen.real_impl) are
+   re-proved against the tables regenerated from the source on every run. *)
+From Coq Require Import List Bool String.
+From PV Require Import Common.Cases C01.Model C01.Spec C01.Proofs C01.Gen C01.ProofsGen.
+Import ListNotations.
+
+(* The relayer picks protocol p  iff  p is the FIRST protocol in the order (takeover holder, then
+   priority list) that is connected and whose class overrides the member - hence a unique one. *)
+Theorem C01_relay_spec : forall reg order p, conforming reg ->
+  (find_instance reg order = Routed p <-> first_implementing reg order p).
+Proof. exact relay_routed. Qed.
+Print Assumptions C01_relay_spec.
+
+(* NotSupportedError  iff  no protocol of the order is connected and implements the member;
+   a RuntimeError is impossible for instances of subclasses of the base interface. *)
+Theorem C01_relay_none : forall reg order, conforming reg ->
+  (find_instance reg order = NotSupported <-> forall q, In q order -> implements reg q = false) /\
+  find_instance reg order <> RuntimeErr.
+Proof. intros reg order C. split; [exact (relay_none reg order C)|exact (relay_never_runtime reg order C)]. Qed.
+Print Assumptions C01_relay_none.
+
+(* Never sent to a protocol that is not connected or merely inherits the interface default -
+   for EVERY registration, conforming or not. *)
+Theorem C01_never_default : forall reg order p,
+  find_instance reg order = Routed p ->
+  In p order /\ exists i, reg p = Some i /\ truthy i = true /\ overrides i = true.
+Proof. exact routed_overrides. Qed.
+Print Assumptions C01_never_default.
+
+(* Complete description of _find_instance without any hypothesis (falsy instances are skipped,
+   a class lacking the attribute raises RuntimeError). *)
+Theorem C01_relay_general : forall reg order,
+  find_instance reg order =
+  match find (stops reg) order with
+  | None => NotSupported
+  | Some p => if lacks reg p then RuntimeErr else Routed p
+  end.
+Proof. exact find_general. Qed.
+Print Assumptions C01_relay_general.
+
+(* The rule of the property text: holder of a takeover first if it implements the member,
+   otherwise the first implementing protocol of the priority order; None iff nobody implements. *)
+Theorem C01_route_text_meaning : forall prio holder reg p,
+  (route_text prio holder reg = Some p <->
+   (holder = Some p /\ implements reg p = true) \/
+   ((forall h, holder = Some h -> implements reg h = false) /\ first_implementing reg prio p)) /\
+  ((forall q, In q prio) ->
+   (route_text prio holder reg = None <-> forall q, implements reg q = false)).
+Proof. intros. split; [apply route_text_some|apply route_text_none]. Qed.
+Print Assumptions C01_route_text_meaning.
+
+(* EVERY public member of the nine interfaces (and of the push updater), as the facade classes
+   relay it now: a call through the device object is executed exactly as the text's rule says, with
+   the priority order of the text (Companion first for power), for every override table, every set
+   of connected protocols and every takeover holder.  play_url is additionally refused while the
+   features interface does not report PlayUrl as available; push_updater.start/stop reach every
+   registered instance. *)
+Theorem C01_every_member_routed : forall r, In r rows ->
+  forall holder gate regd reg, conforming reg ->
+  facade_call (r_kind r) (relayer_prio (r_iface r)) (r_arg r) (opt_list holder) gate regd reg =
+  match expected_kind (r_iface r) (r_member r) with
+  | KRelay => text_result (route_text (text_order (r_iface r)) holder reg)
+  | KGated => if gate then text_result (route_text (text_order (r_iface r)) holder reg) else ENotSupported
+  | KBroadcast => Called regd
+  end.
+Proof. exact every_member_routed. Qed.
+Print Assumptions C01_every_member_routed.
+
+(* The generated tables are what the text needs: one row per public member, own name relayed,
+   the two priority lists (parsed and imported) equal the text's orders, which are duplicate-free
+   and contain all five protocols. *)
+Theorem C01_generated_tables :
+  (default_ast = text_default /\ default_rt = text_default /\ power_ast = text_power /\ power_rt = text_power) /\
+  (forall i, NoDup (text_order i) /\ forall p, In p (text_order i)) /\
+  map (fun r => (r_iface r, r_member r)) rows = flat_map (fun im => map (pair (fst im)) (snd im)) members /\
+  (forall r, In r rows -> r_target r = r_member r /\ r_kind r = expected_kind (r_iface r) (r_member r) /\
+                          eff_priority (r_arg r) (relayer_prio (r_iface r)) = text_order (r_iface r)) /\
+  facade_ifaces = all_ifaces.
+Proof.
+  split; [exact gen_prios|]. split; [intro i; split; [apply text_orders_nodup|apply text_orders_complete]|].
+  split; [exact gen_rows_complete|]. split; [exact row_facts|exact (proj1 gen_ifaces)].
+Qed.
+Print Assumptions C01_generated_tables.
+
+(* The real protocols, as their setup() registers them now, for every set S of connected ones. *)
+Theorem C01_real_protocols_routed : forall S r, In r rows ->
+  forall holder gate regd,
+  facade_call (r_kind r) (relayer_prio (r_iface r)) (r_arg r) (opt_list holder) gate regd
+              (real_reg S (r_iface r) (r_member r)) =
+  member_spec r holder gate regd (real_reg S (r_iface r) (r_member r)).
+Proof. intros S r I holder gate regd. apply every_member_routed; [exact I|apply real_reg_conforming]. Qed.
+Print Assumptions C01_real_protocols_routed.
+
+(* FacadeAppleTV.takeover is all-or-nothing: granted iff every requested interface of the device
+   is free (none requested twice), then exactly those are held by p; otherwise InvalidStateError
+   and the state is what it was (everything acquired on the way is rolled back). *)
+Theorem C01_takeover_all_or_nothing : forall p ifs st,
+  if grantable ifs st
+  then exists st', f_takeover p ifs st = (st', Some (known ifs)) /\
+                   forall X, st' X = if memb X (known ifs) then [p] else st X
+  else exists st', f_takeover p ifs st = (st', None) /\ forall X, st' X = st X.
+Proof. exact takeover_all_or_nothing. Qed.
+Print Assumptions C01_takeover_all_or_nothing.
+
+(* A token gives back exactly its own interfaces. *)
+Theorem C01_release_restores : forall taken st X,
+  release_all taken st X = if memb X taken then [] else st X.
+Proof. exact release_all_spec. Qed.
+Print Assumptions C01_release_restores.
+
+(* After ANY history of takeovers and releases every interface has at most one holder. *)
+Theorem C01_single_holder : forall ops X, List.length (fs (fst (run h0 ops)) X) <= 1.
+Proof. intros ops X. apply run_single. intro Y. simpl. auto. Qed.
+Print Assumptions C01_single_holder.
+
+(* After any history in which each token is called at most once (and only after it was returned),
+   the holder of an interface is exactly the protocol of the un-called token covering it. *)
+Theorem C01_history_holder : forall ops, wf_ops 0 [] ops = true ->
+  forall X, fs (fst (run h0 ops)) X = owners (toks (fst (run h0 ops))) X.
+Proof. intros ops W X. exact (proj1 (history_holder ops W X)). Qed.
+Print Assumptions C01_history_holder.
+
+(* Routing after any history: the call is executed as the text says with the current holder. *)
+Theorem C01_routed_after_any_history : forall ops r, In r rows ->
+  forall gate regd reg, conforming reg ->
+  exists holder,
+    fs (fst (run h0 ops)) (r_iface r) = opt_list holder /\
+    (wf_ops 0 [] ops = true -> opt_list holder = owners (toks (fst (run h0 ops))) (r_iface r)) /\
+    facade_call (r_kind r) (relayer_prio (r_iface r)) (r_arg r)
+                (fs (fst (run h0 ops)) (r_iface r)) gate regd reg =
+    member_spec r holder gate regd reg.
+Proof. exact after_any_history. Qed.
+Print Assumptions C01_routed_after_any_history.
+
+(* The side condition of C01_history_holder is needed: a token called a second time takes the
+   interface away from the protocol that acquired it in between. *)
+Theorem C01_double_release_refuted : exists ops X,
+  wf_ops 0 [] ops = false /\ fs (fst (run h0 ops)) X <> owners (toks (fst (run h0 ops))) X.
+Proof.
+  exists [OTake MRP [Some IAudio]; ORelease 0; OTake RAOP [Some IAudio]; ORelease 0], IAudio.
+  split; [reflexivity|]. vm_compute. discriminate.
+Qed.
+Print Assumptions C01_double_release_refuted.
+
+(* Non-vacuity. *)
+Example C01_ex_registration :
+  let reg := reg_of [(DMAP, mkI true true true); (Companion, mkI true true true); (MRP, mkI true true false)] in
+  conforming reg /\
+  route_text text_default None reg = Some DMAP /\
+  route_text text_power None reg = Some Companion /\
+  route_text text_default (Some Companion) reg = Some Companion /\
+  route_text text_default (Some MRP) reg = Some DMAP /\
+  route_text text_default (Some RAOP) reg = Some DMAP.
+Proof.
+  split; [|repeat split].
+  intros p i. destruct p; simpl; intro H; inversion H; subst; simpl; auto.
+Qed.
+
+Example C01_ex_history :
+  let ops := [OTake RAOP [Some IAudio; None; Some IMetadata]; OTake AirPlay [Some IStream; Some IAudio];
+              ORelease 0; OTake AirPlay [Some IStream; Some IAudio]] in
+  wf_ops 0 [] ops = true /\
+  snd (run h0 ops) = [RTaken; RInvalidState; RReleased; RTaken] /\
+  map (fs (fst (run h0 ops))) [IAudio; IMetadata; IStream] = [[AirPlay]; []; [AirPlay]].
+Proof. repeat split. Qed.
+
+Example C01_ex_rows : exists r, In r rows /\ existsb (fun x => iface_eqb (r_iface x) IPower) rows = true.
+Proof. vm_compute. eexists. split; [left; reflexivity|reflexivity]. Qed.
